@@ -34,6 +34,7 @@ type Solver struct {
 	defined map[*Term]bool
 	buf     bytes.Buffer
 	Queries int
+	OneShots int
 	NSat    int
 	NUnsat  int
 	NUnk    int
@@ -184,6 +185,11 @@ func (s *Solver) Check(assumptions []*Term, wantModel bool) (SatResult, Model, s
 	start := time.Now()
 	defer func() { s.Time += time.Since(start) }()
 	s.Queries++
+	for _, a := range assumptions {
+		if a.fp {
+			return s.oneShot(assumptions, wantModel)
+		}
+	}
 	s.buf.Reset()
 	var lits []string
 	for _, a := range assumptions {
@@ -224,8 +230,8 @@ func (s *Solver) Check(assumptions []*Term, wantModel bool) (SatResult, Model, s
 	case r == "sat":
 		s.NSat++
 	default:
-		s.NUnk++
-		return Unknown, nil, "solver said: " + r
+		// incremental mode gave up: retry as a one-shot query (full preprocessing)
+		return s.oneShot(assumptions, wantModel)
 	}
 	if !wantModel {
 		return Sat, nil, ""
@@ -376,4 +382,71 @@ func RunStandalone(kind, script string, timeoutMs int) (SatResult, string) {
 		return Unsat, ""
 	}
 	return Unknown, r
+}
+
+// oneShot decides the query with fresh solver processes (z3, then z3-new, then
+// cvc5): the non-incremental pipeline preprocesses floating-point and other
+// hard queries far better than check-sat-assuming does.
+func (s *Solver) oneShot(assumptions []*Term, wantModel bool) (SatResult, Model, string) {
+	script := Standalone(assumptions)
+	var vars []*Term
+	seen := map[*Term]bool{}
+	for _, a := range assumptions {
+		collectVars(a, seen, &vars)
+	}
+	if wantModel && len(vars) > 0 {
+		var names []string
+		for _, v := range vars {
+			names = append(names, v.name)
+		}
+		script += "(get-value (" + strings.Join(names, " ") + "))\n"
+	}
+	script = "(set-option :produce-models true)\n" + script
+	why := ""
+	for _, kind := range []string{"z3", "z3-new", "cvc5"} {
+		var cmd *exec.Cmd
+		secs := s.timeout/1000 + 1
+		if kind == "cvc5" {
+			cmd = exec.Command("cvc5", "--lang=smt2", "--produce-models", fmt.Sprintf("--tlimit=%d", s.timeout))
+		} else {
+			cmd = exec.Command(kind, "-in", fmt.Sprintf("-T:%d", secs))
+		}
+		cmd.Stdin = strings.NewReader(script)
+		out, _ := cmd.CombinedOutput()
+		r := string(out)
+		s.OneShots++
+		if strings.Contains(r, "(error") && !strings.HasPrefix(strings.TrimSpace(r), "unsat") {
+			why = kind + ": " + firstLine(r)
+			continue
+		}
+		first := firstLine(r)
+		switch first {
+		case "unsat":
+			s.NUnsat++
+			return Unsat, nil, ""
+		case "sat":
+			m := Model{}
+			if wantModel && len(vars) > 0 {
+				rest := r[strings.Index(r, "sat")+3:]
+				if err := parseValues(rest, m); err != nil {
+					why = kind + ": " + err.Error()
+					continue
+				}
+			}
+			s.NSat++
+			return Sat, m, ""
+		default:
+			why = kind + ": " + first
+		}
+	}
+	s.NUnk++
+	return Unknown, nil, "one-shot solvers: " + why
+}
+
+func firstLine(s string) string {
+	s = strings.TrimSpace(s)
+	if i := strings.IndexByte(s, '\n'); i >= 0 {
+		return strings.TrimSpace(s[:i])
+	}
+	return s
 }
